@@ -105,3 +105,6 @@ Definition replace_nth_e (i : nat) (t' : tok) : nat -> N -> green -> nat * actio
 
 (* SyntaxToken::clone_with_text: same kind, same leading trivia, new text *)
 Definition clone_with_text (t : tok) (text : list byte) : tok := mkTok (t_kind t) text (t_trivia t).
+
+(* SyntaxToken::clone_with_leading_trivia: same kind, same text, new leading trivia *)
+Definition clone_with_leading_trivia (t : tok) (tr : list tpiece) : tok := mkTok (t_kind t) (t_text t) tr.
